@@ -1778,6 +1778,12 @@ SHAPES2 = [(1, 1), (1, 2), (2, 1), (2, 2), (2, 3), (3, 1), (1, 3), (3, 2)]
 
 
 def _operand(shape, idx, ent):
+    if ent in ("small", "small_complex"):  # entries of modulus <= 3: every product of up to 13 of them is exact in int64 / float64
+        n = int(np.prod(shape))
+        v = np.array([(-1) ** k * (k % 3 + 1) for k in range(n)], dtype=np.int64)
+        if ent == "small_complex":
+            v = v + 1j * np.array([(k + 1) % 2 for k in range(n)])
+        return v.reshape(shape)
     if len(shape) == 1:
         m = primes_matrix(1, shape[0], 7 * idx, cplx=(ent == "complex"))
         return m[0].copy()
@@ -1808,6 +1814,14 @@ def tensor_cases(tier, seed):
             for ent in ("int", "complex"):
                 yield {"kind": "power", "shape": list(s), "n": n, "entries": ent}
         yield {"kind": "single", "shape": list(s)}
+    # higher powers (added after seeded change C16-7: exponentiation by squaring that was only wrong for odd n >= 5): every n up to 13
+    # (thorough 15) on operands small enough for the result to stay below 2^15 entries, so that every halving chain is walked
+    for s in [(1, 2), (2, 1), (2,), (2, 2), (1, 3), (3, 1), (2, 3)]:
+        for n in range(5, 14 if tier == "quick" else 16):
+            if int(np.prod(s)) ** n > 2 ** 15:
+                continue
+            for ent in ("small", "small_complex"):
+                yield {"kind": "power", "shape": list(s), "n": n, "entries": ent}
 
 
 def _kron_all(ops):
@@ -2335,7 +2349,7 @@ CLAUSES = [
     Clause("C16.states", states_cases, states_check, tol="exact(margin 100x tol)", weight=0.001,
            doc="is_pure / is_mixed / is_ensemble on the density catalogue, nearly pure states, scaled and non-PSD ensembles"),
     Clause("C16.vec_unvec", vec_cases, vec_check, tol="exact", doc="vec/unvec mutual inverses (column stacking), vec(AXB) = (B^T (x) A) vec(X) on primes"),
-    Clause("C16.tensor", tensor_cases, tensor_check, tol="exact", doc="tensor list / varargs / stacked / (A, n) forms, associativity, n = 0..4(6)"),
+    Clause("C16.tensor", tensor_cases, tensor_check, tol="exact", doc="tensor list / varargs / stacked / (A, n) forms, associativity, n = 0..4(6) on prime-filled operands and n = 5..13(15) on small-entry operands"),
     Clause("C16.gram", gram_cases, gram_check, tol="spec(1e-6)", weight=0.001,
            doc="vectors_to_gram_matrix = <v_i, v_j>; Gram -> vectors -> Gram round trip on PD and rank-deficient, real and complex sets"),
     Clause("C16.majorizes", majorizes_cases, majorizes_check, tol="exact", doc="majorizes vs sorted partial sums on all pairs of partitions of 6 (and 5, 7)"),
